@@ -6,8 +6,9 @@ update, returned `Err` through the joins, or only a log line), and `main`'s exit
 proved for every required step EXCEPT the finalisation steps that run inside `Drop` (finding F11: their
 errors are logged and swallowed) — `no_silent_failure_partial`; the full statement is kept as
 `no_silent_failure_full` and refuted by the witness `finalise_failure_is_silent`, which the check replays
-on the implementation.  Existence probes of the destination are not steps; that a failed probe is read as
-"absent" and silently changes the mapping is finding F12 (`probe_failure_is_silent`).  -/
+on the implementation.  Existence probes of the destination are not steps; that a failed probe was read as
+"absent" and silently changed the mapping was finding F12, repaired by a `fix:` commit: the probe that decides the mapping
+is fallible now (`mapping_probe_failure_is_reported`).  -/
 namespace Xcp.C04
 
 open Xcp.Errs
@@ -50,9 +51,11 @@ theorem full_statement_fails : ¬ no_silent_failure_full := by
   have := h .parfile [.finChmod] ⟨.finChmod, by simp, rfl⟩
   simp [exitNonZero, report] at this
 
-/-- Finding F12: a failing existence probe is not a failure at all for the code. -/
-theorem probe_failure_is_silent (d : Driver) : exitNonZero d [.destProbe] = false := by
-  cases d <;> decide
+/-- The repaired defect F12: the lookup that decides WHERE files go (is the destination an existing directory?) used to
+read a failing stat as "no" and silently changed the mapping; after the `fix:` commit its failure returns an error
+through main / the walker, alone or with any other failures beside it -/
+theorem mapping_probe_failure_is_reported (d : Driver) (others : List Site) : exitNonZero d (.destProbe :: others) = true := by
+  cases d <;> simp [exitNonZero, report]
 
 /-- library clients: apart from a failing block job of parblock (reported through the update stream only),
 every reported failure also makes `copy()` return an error -/
